@@ -118,6 +118,13 @@ fn main() {
             )*};
         }
         hashlen!(1, 2, 3, 5, 7, 9, 12, 15, 16, 17, 24, 31, 32, 48, 63, 64, 65, 100, 128, 255);
+        // other numbers of hash functions than the default two (the seeds of hasher i are derived
+        // from i), with bit counts that are and are not multiples of 64
+        for (k, bits) in [(1usize, 200usize), (3, 512), (4, 333), (5, 1024), (8, 4099)] {
+            let name = format!("k4-bits{bits}-hashers{k}");
+            let d = out.join(&name);
+            manifest.insert(name, json!({"bloom": format!("bits{bits}k{k}"), "info": standard::<4>(&d, Bloom::BitsK(bits, k)).await}));
+        }
     });
     let m = json!({"generated_by": "corpus/gen built against qoollo/pearl", "sha": sha, "dirs": manifest});
     std::fs::write(out.join("MANIFEST.json"), serde_json::to_string_pretty(&m).unwrap()).unwrap();
